@@ -77,6 +77,19 @@ func c08Read(c *sim.Ctx, w *world.World, st *c08State, hi int, h *c08Handle, rep
 	if w.Version-h.opened > 0 {
 		c.Probe("read-after-foreign-commit")
 	}
+	if w.InWAL {
+		// the file is in WAL mode: its committed content is partly in the -wal file, a
+		// rollback-journal reader must refuse every read (and recover when the file comes back)
+		for _, t := range w.Snap.Tables {
+			r := ops.Run(h.d, ops.Op{Kind: "select", Table: t.Name, Cols: []string{t.ColNames()[0]}}, nil)
+			c.Eval(1)
+			if r.Panic == nil && (r.Err == nil || len(r.Rows) > 0) {
+				c.Fail("wal-read", "read-in-wal-phase", fmt.Sprintf("handle %s (opened at v%d) read %s (%d rows, err %v) while the file is in WAL mode", h.name, h.opened, t.Name, len(r.Rows), r.Err), nil)
+			}
+			c.Probe("refused-in-wal-phase")
+		}
+		return
+	}
 	// the definitions this handle reports must be the ones a handle opened right now
 	// reports (tables, columns, primary key and every index with its columns): whatever
 	// sqlittle makes of a definition, it may not depend on what the handle saw earlier
@@ -246,7 +259,7 @@ func runC08(c *sim.Ctx) {
 	dir, cleanup := e.RunDir()
 	defer cleanup()
 	prof := world.Profile{PageSizes: []int{512, 1024, 4096, 512}, MaxTables: 3, RowsLo: 0, RowsHi: 150, Fancy: 2, DDL: true, Vacuum: true,
-		Boundary: true, LongKeys: 2, WithoutRow: 2, IndexesHi: 2}
+		Boundary: true, LongKeys: 2, WithoutRow: 2, IndexesHi: 2, WALTrip: true, CounterWrap: true}
 	big := s.Chance(1, 3, "big") // databases above the 100-page cache
 	if big {
 		prof.RowsHi = 900
@@ -283,6 +296,10 @@ func runC08(c *sim.Ctx) {
 			return
 		}
 		for i, at := range openAt {
+			if at == w.Version && w.InWAL {
+				openAt[i]++ // a WAL file cannot be opened (C15): this handle opens one commit later
+				continue
+			}
 			if at == w.Version {
 				cache := cacheKnob[s.Draw(len(cacheKnob), "cache")]
 				d := openFresh(c, w.Path, cache)
